@@ -29,11 +29,28 @@ def dictLast? : Dict → Val → Option Val
     | some v => some v
     | none => if a = k then some b else none
 
+/-- the pairs an update sequence denotes — `none` when `dict.update` rejects one of its elements -/
+def seqPairs : List Val → Option Dict
+  | [] => some []
+  | x :: xs =>
+    match seqPair x, seqPairs xs with
+    | .ok kv, some m => some (kv :: m)
+    | _, _ => none
+
+/-- the pairs the value of a dict setting denotes (`dict.update(value)` sets them in this order) —
+    `none` when `dict.update` rejects the value -/
+def pairsOf : Val → Option Dict
+  | .dict m => some m
+  | .list xs => seqPairs xs
+  | .tuple xs => seqPairs xs
+  | .str s => if s.isEmpty then some [] else none
+  | _ => none
+
 /-- What payload `p` says about entry `key` of dict setting `d`. -/
 def dictSettingOf (p : Payload) (d : String) (key : Val) : Option Val :=
-  match settingOf p d with
-  | some (.dict m) => dictLast? m key
-  | _ => none
+  match (settingOf p d).bind pairsOf with
+  | some m => dictLast? m key
+  | none => none
 
 /-- The value of `d[key]` in the last (highest-precedence) payload of the list that has it. -/
 def highestDict (d : String) (key : Val) : List Payload → Option Val
@@ -44,13 +61,13 @@ def highestDict (d : String) (key : Val) : List Payload → Option Val
 
 /-- Payloads are well-formed Python data: every dict-valued setting has unique keys. -/
 def DictsNodup (p : Payload) : Prop :=
-  ∀ d m, settingOf p d = some (.dict m) → (m.map (·.1)).Nodup
+  ∀ d v m, settingOf p d = some v → pairsOf v = some m → (m.map (·.1)).Nodup
 
 /-- Same reading with `dictGet?` (first binding) — equal on key-unique dicts. -/
 def dictSettingOf' (p : Payload) (d : String) (key : Val) : Option Val :=
-  match settingOf p d with
-  | some (.dict m) => dictGet? m key
-  | _ => none
+  match (settingOf p d).bind pairsOf with
+  | some m => dictGet? m key
+  | none => none
 
 def highestDict' (d : String) (key : Val) : List Payload → Option Val
   | [] => none
@@ -126,10 +143,71 @@ theorem get?_overwriteScalars (sc kvs : Ctx) (k : String) :
 
 /-! ## One `Config.update` -/
 
-/-- `old.update(...)` with what the file says for that dict prop. -/
-def overlayDict (old : Dict) : Option Val → Dict
-  | some (.dict m) => dictUpdate old m
-  | _ => old
+/-- `old.update(...)` with what the file says for that dict prop (when `dict.update` accepts it). -/
+def overlayDict (old : Dict) (v : Option Val) : Dict :=
+  match v.bind pairsOf with
+  | some m => dictUpdate old m
+  | none => old
+
+theorem dictUpdate_cons (d : Dict) (k v : Val) (m : Dict) :
+    dictUpdate d ((k, v) :: m) = dictUpdate (dictSet d k v) m := by
+  simp [dictUpdate]
+
+theorem updateSeq_ok (xs : List Val) : ∀ (d d' : Dict), updateSeq d xs = (d', none) →
+    ∃ m, seqPairs xs = some m ∧ d' = dictUpdate d m := by
+  induction xs with
+  | nil =>
+    intro d d' h
+    simp only [updateSeq, Prod.mk.injEq, and_true] at h
+    exact ⟨[], rfl, by subst h; rfl⟩
+  | cons x xs ih =>
+    intro d d' h
+    unfold updateSeq at h
+    cases hx : seqPair x with
+    | error exc => simp [hx] at h
+    | ok kv =>
+      obtain ⟨k, v⟩ := kv
+      simp only [hx] at h
+      obtain ⟨m, hm, hd⟩ := ih _ _ h
+      refine ⟨(k, v) :: m, by simp [seqPairs, hx, hm], ?_⟩
+      rw [dictUpdate_cons]; exact hd
+
+theorem updateSeq_err (xs : List Val) : ∀ (d d' : Dict) (exc : String), updateSeq d xs = (d', some exc) →
+    seqPairs xs = none := by
+  induction xs with
+  | nil => intro d d' exc h; simp [updateSeq] at h
+  | cons x xs ih =>
+    intro d d' exc h
+    unfold updateSeq at h
+    cases hx : seqPair x with
+    | error e => simp [seqPairs, hx]
+    | ok kv =>
+      obtain ⟨k, v⟩ := kv
+      simp only [hx] at h
+      simp [seqPairs, hx, ih _ _ _ h]
+
+/-- `dict.update(v)` succeeds exactly on the values that denote pairs, and then sets those pairs -/
+theorem dictUpdateVal_ok (d d' : Dict) (v : Val) (h : dictUpdateVal d v = (d', none)) :
+    ∃ m, pairsOf v = some m ∧ d' = dictUpdate d m := by
+  cases v <;> simp only [dictUpdateVal, Prod.mk.injEq, reduceCtorEq, and_false] at h
+  case dict m => exact ⟨m, rfl, by simp at h; exact h.symm⟩
+  case list xs => exact updateSeq_ok xs d d' h
+  case tuple xs => exact updateSeq_ok xs d d' h
+  case str s =>
+    by_cases hs : s.isEmpty = true
+    · simp only [hs, if_true, Prod.mk.injEq, and_true] at h
+      exact ⟨[], by simp [pairsOf, hs], by subst h; rfl⟩
+    · simp [hs] at h
+
+theorem dictUpdateVal_err (d d' : Dict) (v : Val) (exc : String) (h : dictUpdateVal d v = (d', some exc)) :
+    pairsOf v = none := by
+  cases v <;> simp only [dictUpdateVal, Prod.mk.injEq, reduceCtorEq, and_false] at h <;> try rfl
+  case list xs => exact updateSeq_err xs d d' exc h
+  case tuple xs => exact updateSeq_err xs d d' exc h
+  case str s =>
+    by_cases hs : s.isEmpty = true
+    · simp [hs] at h
+    · simp [pairsOf, hs]
 
 theorem updateDicts_ok {ds ds' : List (String × Dict)} {kvs : Ctx}
     (h : updateDicts ds kvs = (ds', none)) (name : String) :
@@ -139,9 +217,9 @@ theorem updateDicts_ok {ds ds' : List (String × Dict)} {kvs : Ctx}
   | cons p rest ih =>
     obtain ⟨n, d⟩ := p
     unfold updateDicts at h
-    split at h
-    · rename_i hget
-      simp only [Prod.mk.injEq] at h
+    cases hget : Ctx.get? kvs n with
+    | none =>
+      simp only [hget, Prod.mk.injEq] at h
       obtain ⟨h1, h2⟩ := h
       have hr : updateDicts rest kvs = ((updateDicts rest kvs).1, none) := by rw [← h2]
       have := ih hr
@@ -150,22 +228,28 @@ theorem updateDicts_ok {ds ds' : List (String × Dict)} {kvs : Ctx}
       by_cases hn : n = name
       · subst hn; simp [hget, overlayDict]
       · simp [hn, this]
-    · rename_i m hget
-      simp only [Prod.mk.injEq] at h
-      obtain ⟨h1, h2⟩ := h
-      have hr : updateDicts rest kvs = ((updateDicts rest kvs).1, none) := by rw [← h2]
-      have := ih hr
-      subst h1
-      simp only [dictsGet?]
-      by_cases hn : n = name
-      · subst hn; simp [hget, overlayDict]
-      · simp [hn, this]
-    · simp at h
+    | some v =>
+      simp only [hget] at h
+      cases hu : dictUpdateVal d v with
+      | mk d1 e1 =>
+        cases e1 with
+        | some exc => simp [hu] at h
+        | none =>
+          simp only [hu, Prod.mk.injEq] at h
+          obtain ⟨h1, h2⟩ := h
+          have hr : updateDicts rest kvs = ((updateDicts rest kvs).1, none) := by rw [← h2]
+          have := ih hr
+          obtain ⟨m, hm, hd1⟩ := dictUpdateVal_ok d d1 v hu
+          subst h1
+          simp only [dictsGet?]
+          by_cases hn : n = name
+          · subst hn; simp [hget, overlayDict, hm, hd1]
+          · simp [hn, this]
 
 theorem update_ok_scalar {st st' : ConfigState} {kvs : Ctx} (h : update st kvs = (st', none)) (k : String) :
     st'.scalar? k = (st.scalar? k).map (fun old => (Ctx.get? kvs k).getD old) := by
-  unfold update at h
-  simp only [] at h
+  unfold update updateOrd updateDictsOrd at h
+  simp only [Bool.false_eq_true, if_false] at h
   split at h
   · simp at h
   · split at h
@@ -176,8 +260,8 @@ theorem update_ok_scalar {st st' : ConfigState} {kvs : Ctx} (h : update st kvs =
 
 theorem update_ok_dict {st st' : ConfigState} {kvs : Ctx} (h : update st kvs = (st', none)) (name : String) :
     st'.dict? name = (st.dict? name).map (fun old => overlayDict old (Ctx.get? kvs name)) := by
-  unfold update at h
-  simp only [] at h
+  unfold update updateOrd updateDictsOrd at h
+  simp only [Bool.false_eq_true, if_false] at h
   split at h
   · simp at h
   · split at h
@@ -190,14 +274,26 @@ theorem update_ok_dict {st st' : ConfigState} {kvs : Ctx} (h : update st kvs = (
 
 /-! ## One `handle_path` -/
 
+theorem applyFileSt_mapping (st : ConfigState) (path : String) (kvs : Ctx) :
+    applyFileSt st path (.mapping kvs) =
+      if kvs.isEmpty then (st, none)
+      else match update st kvs with
+        | (st', some e) => (st', some e)
+        | (st', none) => ({ st' with loaded := st'.loaded ++ [path] }, none) := rfl
+
 theorem applyFileSt_ok_scalar {st st' : ConfigState} {path : String} {p : Payload}
     (h : applyFileSt st path p = (st', none)) (k : String) :
     st'.scalar? k = (st.scalar? k).map (fun old => (settingOf p k).getD old) := by
-  unfold applyFileSt at h
-  split at h
-  · simp at h
-  · simp only [Prod.mk.injEq, and_true] at h; subst h; simp [settingOf]
-  · rename_i kvs
+  cases p with
+  | nonMapping t => simp [applyFileSt, applyFileStOrd] at h
+  | parseError exc => simp [applyFileSt, applyFileStOrd] at h
+  | toolNotTable => simp [applyFileSt, applyFileStOrd] at h
+  | none =>
+    simp only [applyFileSt, applyFileStOrd, Prod.mk.injEq, and_true] at h; subst h; simp [settingOf]
+  | unreadable kd =>
+    simp only [applyFileSt, applyFileStOrd, Prod.mk.injEq, and_true] at h; subst h; simp [settingOf]
+  | mapping kvs =>
+    rw [applyFileSt_mapping] at h
     split at h
     · rename_i hempty
       simp only [Prod.mk.injEq, and_true] at h; subst h
@@ -214,11 +310,18 @@ theorem applyFileSt_ok_scalar {st st' : ConfigState} {path : String} {p : Payloa
 theorem applyFileSt_ok_dict {st st' : ConfigState} {path : String} {p : Payload}
     (h : applyFileSt st path p = (st', none)) (name : String) :
     st'.dict? name = (st.dict? name).map (fun old => overlayDict old (settingOf p name)) := by
-  unfold applyFileSt at h
-  split at h
-  · simp at h
-  · simp only [Prod.mk.injEq, and_true] at h; subst h; simp [settingOf, overlayDict]
-  · rename_i kvs
+  cases p with
+  | nonMapping t => simp [applyFileSt, applyFileStOrd] at h
+  | parseError exc => simp [applyFileSt, applyFileStOrd] at h
+  | toolNotTable => simp [applyFileSt, applyFileStOrd] at h
+  | none =>
+    simp only [applyFileSt, applyFileStOrd, Prod.mk.injEq, and_true] at h; subst h
+    simp [settingOf, overlayDict]
+  | unreadable kd =>
+    simp only [applyFileSt, applyFileStOrd, Prod.mk.injEq, and_true] at h; subst h
+    simp [settingOf, overlayDict]
+  | mapping kvs =>
+    rw [applyFileSt_mapping] at h
     split at h
     · rename_i hempty
       simp only [Prod.mk.injEq, and_true] at h; subst h
@@ -234,11 +337,10 @@ theorem applyFileSt_ok_dict {st st' : ConfigState} {path : String} {p : Payload}
 
 theorem dictGet?_overlayDict (old : Dict) (p : Payload) (name : String) (key : Val) :
     dictGet? (overlayDict old (settingOf p name)) key = (dictSettingOf p name key).or (dictGet? old key) := by
-  unfold dictSettingOf
-  cases h : settingOf p name with
-  | none => simp [overlayDict]
-  | some v =>
-    cases v <;> simp [overlayDict, dictGet?_dictUpdate]
+  unfold dictSettingOf overlayDict
+  cases (settingOf p name).bind pairsOf with
+  | none => simp
+  | some m => simp [dictGet?_dictUpdate]
 
 /-! ## A sequence of `handle_path` calls -/
 
@@ -288,6 +390,17 @@ theorem applyAll_ok_dict {st st' : ConfigState} {ps : List (String × Payload)}
     simp only [List.map_cons, highestDict]
     cases highestDict name key (List.map (·.2) rest) <;> simp
 
+theorem applyAll_ok_dict_none {st st' : ConfigState} {ps : List (String × Payload)}
+    (h : applyAll st ps = (st', none)) (name : String) (h0 : st.dict? name = none) : st'.dict? name = none := by
+  induction ps generalizing st with
+  | nil => simp only [applyAll, Prod.mk.injEq, and_true] at h; subst h; exact h0
+  | cons hd rest ih =>
+    obtain ⟨path, p⟩ := hd
+    obtain ⟨st1, h1, h2⟩ := applyAll_cons_ok h
+    have hd1 := applyFileSt_ok_dict h1 name
+    rw [h0] at hd1
+    exact ih h2 (by simpa using hd1)
+
 theorem highestDict_eq' (name : String) (key : Val) (ps : List Payload) (h : ∀ p ∈ ps, DictsNodup p) :
     highestDict name key ps = highestDict' name key ps := by
   induction ps with
@@ -300,9 +413,10 @@ theorem highestDict_eq' (name : String) (key : Val) (ps : List Payload) (h : ∀
       cases hs : settingOf p name with
       | none => rfl
       | some v =>
-        cases v <;> try rfl
-        rename_i m
-        exact dictLast?_eq_dictGet? m key (h p List.mem_cons_self name m hs)
+        simp only [Option.bind_some]
+        cases hp : pairsOf v with
+        | none => rfl
+        | some m => exact dictLast?_eq_dictGet? m key (h p List.mem_cons_self name v m hs hp)
     rw [this]
 
 /-- A rejected file ends the sequence with the state the earlier files produced. -/
@@ -323,7 +437,7 @@ theorem applyAll_append_reject {st st1 st2 : ConfigState} {ps rest : List (Strin
 theorem applyAll_skip_none (st : ConfigState) (ps₁ ps₂ : List (String × Payload)) (path : String) :
     applyAll st (ps₁ ++ (path, .none) :: ps₂) = applyAll st (ps₁ ++ ps₂) := by
   induction ps₁ generalizing st with
-  | nil => simp [applyAll, applyFileSt]
+  | nil => simp [applyAll, applyFileSt, applyFileStOrd]
   | cons hd tl ih =>
     obtain ⟨path', p'⟩ := hd
     simp only [List.cons_append, applyAll]
@@ -337,8 +451,29 @@ theorem applyAll_skip_none (st : ConfigState) (ps₁ ps₂ : List (String × Pay
 def payloadsOf (fs : Files) (looks : List Look) : List (String × Payload) :=
   looks.map fun l => (l.path, (fs.get? l.path).getD .none)
 
+theorem handlePath_eq_applyFileSt (fs : Files) (st : ConfigState) (l : Look)
+    (hl : l.mustExist = true → fs.opens l.path = true) :
+    handlePath fs st l = applyFileSt st l.path ((fs.get? l.path).getD .none) := by
+  unfold handlePath load
+  cases hg : fs.get? l.path with
+  | none =>
+    cases hm : l.mustExist with
+    | true => simp [Files.opens, hg, hm] at hl
+    | false => simp [applyFileSt, applyFileStOrd]
+  | some p =>
+    cases p with
+    | unreadable kd =>
+      cases hm : l.mustExist with
+      | true => simp [Files.opens, hg, hm] at hl
+      | false => simp [applyFileSt, applyFileStOrd]
+    | none => simp
+    | mapping kvs => simp
+    | nonMapping t => simp
+    | parseError exc => simp
+    | toolNotTable => simp
+
 theorem runLooks_eq_applyAll (fs : Files) (st : ConfigState) (looks : List Look)
-    (hex : ∀ l ∈ looks, l.mustExist = true → (fs.get? l.path).isSome) :
+    (hex : ∀ l ∈ looks, l.mustExist = true → fs.opens l.path = true) :
     runLooks fs st looks = applyAll st (payloadsOf fs looks) := by
   induction looks generalizing st with
   | nil => rfl
@@ -346,24 +481,23 @@ theorem runLooks_eq_applyAll (fs : Files) (st : ConfigState) (looks : List Look)
     have hl := hex l List.mem_cons_self
     have hls := fun st' => ih st' (fun q hq => hex q (List.mem_cons_of_mem _ hq))
     simp only [runLooks, payloadsOf, List.map_cons, applyAll]
-    have hh : handlePath fs st l = applyFileSt st l.path ((fs.get? l.path).getD .none) := by
-      unfold handlePath load
-      cases hg : fs.get? l.path with
-      | some p => simp
-      | none =>
-        cases hm : l.mustExist with
-        | true => rw [hg] at hl; simp [hm] at hl
-        | false => simp
-    rw [hh]
+    rw [handlePath_eq_applyFileSt fs st l hl]
     split
     · rfl
     · rename_i st' _
       exact hls st'
 
 theorem runLooks_missing (fs : Files) (st : ConfigState) (l : Look) (ls : List Look)
-    (hm : l.mustExist = true) (hg : fs.get? l.path = none) :
+    (hm : l.mustExist = true) (hg : fs.opens l.path = false) :
     runLooks fs st (l :: ls) = (st, some (.notFound l.path)) := by
-  simp [runLooks, handlePath, load, hg, hm]
+  have hh : handlePath fs st l = (st, some (.notFound l.path)) := by
+    unfold handlePath load
+    cases hget : fs.get? l.path with
+    | none => simp [hm]
+    | some p =>
+      cases p <;> simp [Files.opens, hget] at hg
+      simp [hm]
+  simp [runLooks, hh]
 
 theorem consulted_prefix (fs : Files) (st : ConfigState) (looks : List Look) :
     consulted fs st looks <+: looks.map (·.path) := by
@@ -389,6 +523,28 @@ theorem consulted_all_of_ok (fs : Files) (st st' : ConfigState) (looks : List Lo
     · rename_i st1 h1
       rw [ih st1 h]
 
+theorem handlePath_ok {fs : Files} {st st1 : ConfigState} {l : Look} (h1 : handlePath fs st l = (st1, none)) :
+    applyFileSt st l.path ((fs.get? l.path).getD .none) = (st1, none) := by
+  unfold handlePath load at h1
+  cases hg : fs.get? l.path with
+  | none =>
+    cases hm : l.mustExist with
+    | true => simp [hg, hm] at h1
+    | false => simpa [hg, hm] using h1
+  | some p =>
+    cases p with
+    | unreadable kd =>
+      cases hm : l.mustExist with
+      | true => simp [hg, hm] at h1
+      | false =>
+        simp only [hg, hm] at h1
+        simpa [applyFileSt, applyFileStOrd] using h1
+    | none => simpa [hg] using h1
+    | mapping kvs => simpa [hg] using h1
+    | nonMapping t => simpa [hg] using h1
+    | parseError exc => simpa [hg] using h1
+    | toolNotTable => simpa [hg] using h1
+
 theorem runLooks_ok_applyAll {fs : Files} {st st' : ConfigState} {looks : List Look}
     (h : runLooks fs st looks = (st', none)) : applyAll st (payloadsOf fs looks) = (st', none) := by
   induction looks generalizing st with
@@ -398,16 +554,41 @@ theorem runLooks_ok_applyAll {fs : Files} {st st' : ConfigState} {looks : List L
     split at h
     · simp at h
     · rename_i st1 h1
-      have hh : applyFileSt st l.path ((fs.get? l.path).getD .none) = (st1, none) := by
-        unfold handlePath load at h1
-        cases hg : fs.get? l.path with
-        | some p => simpa [hg] using h1
-        | none =>
-          cases hm : l.mustExist with
-          | true => simp [hg, hm] at h1
-          | false => simpa [hg, hm] using h1
-      simp only [payloadsOf, List.map_cons, applyAll, hh]
+      simp only [payloadsOf, List.map_cons, applyAll, handlePath_ok h1]
       exact ih h
+
+/-! ## `init` past its two early exits -/
+
+theorem handlePath_missing (fs : Files) (st : ConfigState) (l : Look)
+    (hm : l.mustExist = true) (hg : fs.opens l.path = false) :
+    handlePath fs st l = (st, some (.notFound l.path)) := by
+  unfold handlePath load
+  cases hget : fs.get? l.path with
+  | none => simp [hm]
+  | some p =>
+    cases p <;> simp [Files.opens, hget] at hg
+    simp [hm]
+
+theorem platformFails_of_global (e : Env) (g : String) (hg : e.globalPath? = some g) : e.platformFails = false := by
+  simp [Env.platformFails, hg]
+
+theorem initOn_unfold (st : ConfigState) (e : Env) (fs : Files) (hs : e.skip = false) (hp : e.platformFails = false) :
+    initOn st e fs = runLooks fs st (lookOrder e) := by
+  simp [initOn, hs, hp]
+
+theorem initOrder_unfold (e : Env) (hs : e.skip = false) (hp : e.platformFails = false) :
+    initOrder e = lookOrder e := by
+  simp [initOrder, hs, hp]
+
+/-- a successful `init` got past the platform look-up -/
+theorem initOn_ok {st st' : ConfigState} {e : Env} {fs : Files} (hs : e.skip = false)
+    (h : initOn st e fs = (st', none)) :
+    e.platformFails = false ∧ runLooks fs st (lookOrder e) = (st', none) := by
+  cases hp : e.platformFails with
+  | true => simp [initOn, hs, hp] at h
+  | false => exact ⟨rfl, by simpa [initOn, hs, hp] using h⟩
+
+theorem initSt_eq (e : Env) (fs : Files) : initSt e fs = initOn (defaults e) e fs := rfl
 
 /-! ## "The last one that says something" -/
 
